@@ -26,7 +26,7 @@ def one(job):
 try:
     jobs = [(d, p) for d in scratch for p in PROPS]
     res = {}
-    with ThreadPoolExecutor(16) as ex:
+    with ThreadPoolExecutor(int(os.environ.get("REEVAL_THREADS", "16"))) as ex:
         for d, p, c, first in ex.map(one, jobs):
             res.setdefault(d, {})[p] = (c, first)
     own_det = any_det = tot = 0
